@@ -9,6 +9,7 @@ import (
 	"crypto/rand"
 	"encoding/hex"
 	"encoding/json"
+	"flag"
 	"fmt"
 	"io"
 	"os"
@@ -37,7 +38,7 @@ func (r *Rng) Intn(n int) int {
 	}
 	return int(r.U64() % uint64(n))
 }
-func (r *Rng) Bool() bool       { return r.U64()&1 == 1 }
+func (r *Rng) Bool() bool        { return r.U64()&1 == 1 }
 func (r *Rng) Chance(p int) bool { return r.Intn(100) < p }
 func (r *Rng) Bytes(n int) []byte {
 	b := make([]byte, n)
@@ -46,7 +47,7 @@ func (r *Rng) Bytes(n int) []byte {
 	}
 	return b
 }
-func (r *Rng) Pick(xs []int) int { return xs[r.Intn(len(xs))] }
+func (r *Rng) Pick(xs []int) int    { return xs[r.Intn(len(xs))] }
 func PickS[T any](r *Rng, xs []T) T { return xs[r.Intn(len(xs))] }
 
 // Tape is the deterministic reader installed as crypto/rand.Reader.  Reads of
@@ -55,15 +56,15 @@ func PickS[T any](r *Rng, xs []T) T { return xs[r.Intn(len(xs))] }
 // drained channel continues with a counter stream so the real code never
 // blocks.  Every read is logged (length and bytes) for the C20 comparison.
 type Tape struct {
-	mu    sync.Mutex
-	IDs   []uint32
-	Bulk  []byte
-	ctr   uint64
-	Log   []TapeRead
-	NIDs  int // number of ID draws served
-	NBulk int // bulk bytes served
+	mu          sync.Mutex
+	IDs         []uint32
+	Bulk        []byte
+	ctr         uint64
+	Log         []TapeRead
+	NIDs        int  // number of ID draws served
+	NBulk       int  // bulk bytes served
 	IDExhausted bool // a 4-byte read found the ID channel empty although one was configured
-	HadIDs bool
+	HadIDs      bool
 }
 type TapeRead struct {
 	N    int
@@ -243,3 +244,18 @@ func safeCheck(p *Prop, in, obs string) (v string) {
 }
 
 var _ = io.EOF
+
+// CLI is the main function of every per-property harness command.
+func CLI(id string) {
+	seed := flag.Uint64("seed", 1, "seed")
+	n := flag.Int("n", 100, "number of generated cases")
+	tier := flag.String("tier", "quick", "tier")
+	out := flag.String("out", "", "output directory")
+	corpus := flag.String("corpus", "", "corpus file of case lines run first")
+	single := flag.String("case", "", "run exactly this case line")
+	flag.Parse()
+	if err := Main(id, *seed, *n, *tier, *out, *corpus, *single); err != nil {
+		fmt.Fprintln(os.Stderr, err)
+		os.Exit(2)
+	}
+}
